@@ -62,3 +62,32 @@ Theorem C08_compact_shift_steps : forall l1 l2 window0 ri,
    cw_shift l1 l2 window0 (ri + 1) = cw_shift l1 l2 window0 ri \/
    cw_shift l1 l2 window0 (ri + 1) = cw_shift l1 l2 window0 ri + 1)%Z.
 Proof. exact compact_shift_steps. Qed.
+
+(* The loops that FILL the compact array (four kernels x four row regions, regenerated into Gen_cfill.v): the cell loop of
+   every region runs over exactly the band of its row, writes column ci to the layout slot ci + 1 - shift(ri), reads the
+   previous row at the slots of columns ci - 1 and ci under THAT row's shift, and all of these indices -- and the head
+   fill of region D -- lie inside their rows, for every length, window and row.  The skip loops before the cell loop are
+   bounded by the pruning column (only ever 0 or ci + 1 of an earlier cell loop, whose bound never decreases) or by
+   min(ri, bound of the cell loop). *)
+From Coq Require Import List String.
+From DV Require Import CFill.
+From DVGen Require Import Gen_cfill.
+
+Theorem C08_fill_loops_follow_the_layout : forall l1 l2 window0, (1 <= l1)%Z -> (1 <= l2)%Z -> (0 <= window0)%Z ->
+  forall r, In r fill_regions -> region_ok l1 l2 window0 r.
+Proof. exact fill_regions_follow_the_layout. Qed.
+
+Theorem C08_fill_skip_loops_bounded :
+  (forall r, In r fill_regions -> fr_skip r = "sc"%string \/ fr_skip r = "ri&bound"%string) /\
+  (forall k l x, In (k, l) sc_assignments -> In x l -> x = "0"%string \/ x = "ci + 1"%string) /\
+  (forall l1 l2 w ri, (0 <= ri)%Z -> (Dtw.band_hi l1 l2 w ri <= Dtw.band_hi l1 l2 w (ri + 1))%Z).
+Proof.
+  split; [exact skip_loops_are_bounded|]. split; [exact sc_is_zero_or_the_next_column|exact cell_loop_bound_monotone].
+Qed.
+
+Theorem C08_fill_skip_in_row : forall l1 l2 window0, (1 <= l1)%Z -> (1 <= l2)%Z -> (0 <= window0)%Z ->
+  forall r, In r fill_regions -> forall ri S ci,
+  (region_lo l1 l2 window0 (fr_region r) <= ri < region_hi l1 l2 window0 (fr_region r))%Z -> (0 <= ri < l1)%Z ->
+  (S <= row_hi l1 l2 window0 r ri)%Z -> (row_min l1 l2 window0 r ri <= ci < S)%Z ->
+  (0 < slot l1 l2 window0 r ri ci < width l1 l2 window0)%Z.
+Proof. exact skip_in_row. Qed.
